@@ -325,7 +325,7 @@ func init() {
 				ruleDECIDEChecker(w, r)
 				ruleDECIDEPredicates(w, r, map[string]bool{"par1": true, "par2": true})
 			})
-			guard(r, "PAIR", func() { rulePAIRERRTYPE(w, r) })
+			guard(r, "PAIR", func() { rulePAIRERRTYPE(w, r); ruleCLASSIFY(w, r) })
 			guard(r, "GLOB", func() { ruleGLOB(w, r, globOpts{complete: true}) })
 			guard(r, "ENTRY-SEQ", func() { ruleENTRYSEQ(w, r, "par1", "par2") })
 			guard(r, "DETERM", func() { r.rule("DETERM", ruleDETERMText); determPathsPar2(w, r, false) })
